@@ -248,6 +248,33 @@ def rand_leftcorner_grammar(rng, boolean=True):
     return {"S": rng.randrange(k), "nT": nT, "rules": rules}
 
 
+def rand_linked_unary_cycles(rng, boolean=True):
+    """two (or three) separate cycles of unary rules, linked by unary rules from one cycle into another, with
+    terminal rules hanging off cycle members"""
+    W = lambda: (True if boolean else fs(rng.choice([Fraction(1, 4), Fraction(1, 5), Fraction(1, 3), Fraction(1, 8)])))
+    nT = 3
+    t = lambda: ["T", rng.randrange(nT)]
+    ncyc = rng.randint(2, 3)
+    rules, members, nxt = [], [], 1
+    for _ in range(ncyc):
+        k = rng.randint(1, 2)
+        ms = list(range(nxt, nxt + k))
+        nxt += k
+        members.append(ms)
+        for i, x in enumerate(ms):
+            rules.append([W(), x, [["N", ms[(i + 1) % k]]]])            # the cycle (a self-loop when k = 1)
+        rules.append([W(), rng.choice(ms), [t()]])
+        if rng.random() < 0.5:
+            rules.append([W(), rng.choice(ms), [t(), t()]])
+    for c in range(ncyc - 1):
+        rules.append([W(), rng.choice(members[c]), [["N", rng.choice(members[c + 1])]]])   # link into the next cycle
+    rules.append([W(), 0, [["N", rng.choice(members[0])]]])
+    if rng.random() < 0.5:
+        rules.append([W(), 0, [["N", rng.choice(members[-1])], t()]])
+    rng.shuffle(rules)
+    return {"S": 0, "nT": nT, "rules": rules}
+
+
 def rand_sharedcorner_grammar(rng, boolean=False):
     """finite language; two nonterminals with a common left corner D are awaited together after one terminal and
     separately after others:  S -> z A u | z B v | x A | y B,  A -> D r,  B -> D s,  D -> d"""
